@@ -333,6 +333,7 @@ theorem var_shift (l : List α) (c : α) : var (l.map (· + c)) = var l := by
   by_cases hl : l = []
   · subst hl; rfl
   · unfold var
+    dsimp only
     rw [mean_shift l c hl, List.map_map]
     congr 1
     apply List.map_congr_left
@@ -341,7 +342,9 @@ theorem var_shift (l : List α) (c : α) : var (l.map (· + c)) = var l := by
     ring
 
 theorem var_nonneg (l : List α) : 0 ≤ var l := by
-  unfold var mean
+  unfold var
+  dsimp only
+  unfold mean
   apply div_nonneg
   · apply List.sum_nonneg
     intro x hx
